@@ -78,7 +78,7 @@ package keeper
 //@   ensures[C05.used_gas] err == nil ==> (res != nil && st.initialGas == st.msg.Gas() && st.gas <= st.initialGas && res.UsedGas == st.initialGas - st.gas)
 //@   ensures[C05.pool] err == nil ==> *st.gp == old(*st.gp) - res.UsedGas
 //@   ensures[C06.nonce_plus_one] (err == nil && !st.msg.IsFake()) ==> sdbNonce[payload(st.state)][st.msg.From()] == old(sdbNonce[payload(st.state)][st.msg.From()]) + 1
-//@   ensures[C06.nonce_matched] (err == nil && !st.msg.IsFake()) ==> old(sdbNonce[payload(st.state)][st.msg.From()]) == st.msg.Nonce()
+//@   ensures[C06.nonce_matched] (err == nil && !st.msg.IsFake()) ==> (old(sdbNonce[payload(st.state)][st.msg.From()]) == st.msg.Nonce() && st.msg.Nonce() + 1 < pow2(64))
 //@   ensures[C04.supply_delta] err == nil ==> sdbSupply[payload(st.state)] <= old(sdbSupply[payload(st.state)]) + (st.SenderPaidTheFee ? st.gas * bigval[st.gasPrice] : 0)
 //@   ensures[C04.supply_other_denoms] forall den string :: sdbSupplyX[payload(st.state)][den] <= old(sdbSupplyX[payload(st.state)][den])
 //@   ensures[C06.sender_still_eoa] (err == nil && !st.msg.IsFake()) ==> isEmptyCodeHash(sdbCodeHash[payload(st.state)][st.msg.From()])
@@ -181,7 +181,7 @@ package keeper
 //@   requires txConfig.TxType != nil ==> *txConfig.TxType <= 2
 //@   modifies wVersion[layer(ctx)], bankBal[layer(ctx)], bankSupply[layer(ctx)], acctSeq[layer(ctx)], acctExists[layer(ctx)], authVersion[layer(ctx)], trGas[layer(ctx)], trLogs[layer(ctx)], trReceipt[layer(ctx)], trHasReceipt[layer(ctx)], elems(type(common.Address))
 //@   ensures[C05.gas_used_le_limit] err == nil ==> (res != nil && res.GasUsed <= msg.Gas())
-//@   ensures[C06.nonce_advanced] (err == nil && commit && !msg.IsFake()) ==> (old(acctSeq[layer(ctx)][addrBytes(msg.From())]) == msg.Nonce() && acctSeq[layer(ctx)][addrBytes(msg.From())] == msg.Nonce() + 1)
+//@   ensures[C06.nonce_advanced] (err == nil && commit && !msg.IsFake()) ==> (old(acctSeq[layer(ctx)][addrBytes(msg.From())]) == msg.Nonce() && acctSeq[layer(ctx)][addrBytes(msg.From())] == msg.Nonce() + 1 && msg.Nonce() + 1 < pow2(64))
 //@   ensures[C04.supply_evm_denom] (err == nil && commit) ==> bankSupply[layer(ctx)][evmDenomOf[layer(ctx)]] <= old(bankSupply[layer(ctx)][evmDenomOf[layer(ctx)]]) + (trFlagPaid[layer(ctx)] ? (msg.Gas() - res.GasUsed) * bigval[msg.GasPrice()] : 0)
 //@   ensures[C04.supply_other_denoms] (err == nil && commit) ==> (forall den string :: den != evmDenomOf[layer(ctx)] ==> bankSupply[layer(ctx)][den] <= old(bankSupply[layer(ctx)][den]))
 //@   ensures[C08.no_commit_no_persistent_change] !commit ==> (wVersion[layer(ctx)] == old(wVersion[layer(ctx)]) && bankBal[layer(ctx)] == old(bankBal[layer(ctx)]) && bankSupply[layer(ctx)] == old(bankSupply[layer(ctx)]) && acctSeq[layer(ctx)] == old(acctSeq[layer(ctx)]) && acctExists[layer(ctx)] == old(acctExists[layer(ctx)]))
@@ -224,7 +224,7 @@ package keeper
 //@   requires txValue(tx) >= 0
 //@   requires txType(tx) <= 2 && gmLimit(payload(ctx.GasMeter())) == txGas(tx) && gmConsumed[payload(ctx.GasMeter())] <= gmLimit(payload(ctx.GasMeter()))
 //@   modifies wVersion[layer(ctx)], bankBal[layer(ctx)], bankSupply[layer(ctx)], acctSeq[layer(ctx)], acctExists[layer(ctx)], authVersion[layer(ctx)], trGas[layer(ctx)], trLogs[layer(ctx)], trReceipt[layer(ctx)], trHasReceipt[layer(ctx)], gmConsumed[payload(ctx.GasMeter())], gmToLimit[payload(ctx.GasMeter())], elems(type(common.Address))
-//@   ensures[C06.nonce_advanced] err == nil ==> (old(acctSeq[layer(ctx)][addrBytes(txSender(tx))]) == txNonce(tx) && acctSeq[layer(ctx)][addrBytes(txSender(tx))] == txNonce(tx) + 1)
+//@   ensures[C06.nonce_advanced] err == nil ==> (old(acctSeq[layer(ctx)][addrBytes(txSender(tx))]) == txNonce(tx) && acctSeq[layer(ctx)][addrBytes(txSender(tx))] == txNonce(tx) + 1 && txNonce(tx) + 1 < pow2(64))
 //@   ensures[C04.supply_evm_denom] err == nil ==> bankSupply[layer(ctx)][evmDenomOf[layer(ctx)]] <= old(bankSupply[layer(ctx)][evmDenomOf[layer(ctx)]]) + (trFlagPaid[layer(ctx)] ? (txGas(tx) - res.GasUsed) * min(txTipCap(tx) + fmBaseFee[layer(ctx)], txFeeCap(tx)) : 0)
 //@   ensures[C04.supply_other_denoms] err == nil ==> (forall den string :: den != evmDenomOf[layer(ctx)] ==> bankSupply[layer(ctx)][den] <= old(bankSupply[layer(ctx)][den]))
 //@   ensures[C05.error_no_persistent_change,C04.error_no_persistent_change] err != nil ==> (bankBal[layer(ctx)] == old(bankBal[layer(ctx)]) && bankSupply[layer(ctx)] == old(bankSupply[layer(ctx)]) && acctSeq[layer(ctx)] == old(acctSeq[layer(ctx)]))
@@ -291,7 +291,7 @@ package keeper
 //@   requires bech32Bytes(msg.From) == addrBytes(decSender(bytes(msg.MarshalledTx)))
 //@   requires sdk.UnwrapSDKContext(goCtx).GasMeter() != nil && gmLimit(payload(sdk.UnwrapSDKContext(goCtx).GasMeter())) == decGas(bytes(msg.MarshalledTx)) && gmConsumed[payload(sdk.UnwrapSDKContext(goCtx).GasMeter())] <= decGas(bytes(msg.MarshalledTx))
 //@   requires !fmBaseFeeNil[layer(sdk.UnwrapSDKContext(goCtx))] && fmBaseFee[layer(sdk.UnwrapSDKContext(goCtx))] >= 0
-//@   ensures[C06.ante_increment_undone_once] old(trFlagNonce[layer(sdk.UnwrapSDKContext(goCtx))]) ==> old(acctSeq[layer(sdk.UnwrapSDKContext(goCtx))][bech32Bytes(msg.From)]) == decNonce(bytes(msg.MarshalledTx)) + 1
+//@   ensures[C06.ante_increment_undone_once] old(trFlagNonce[layer(sdk.UnwrapSDKContext(goCtx))]) ==> old(acctSeq[layer(sdk.UnwrapSDKContext(goCtx))][bech32Bytes(msg.From)]) == (decNonce(bytes(msg.MarshalledTx)) + 1) % pow2(64)
 //@   ensures[C06.nonce_exactly_plus_one] err == nil ==> (acctSeq[layer(sdk.UnwrapSDKContext(goCtx))][bech32Bytes(msg.From)] == decNonce(bytes(msg.MarshalledTx)) + 1 && !trFlagNonce[layer(sdk.UnwrapSDKContext(goCtx))])
 //@   ensures[C06.nonce_matched_sequence] err == nil ==> old(acctSeq[layer(sdk.UnwrapSDKContext(goCtx))][bech32Bytes(msg.From)]) == decNonce(bytes(msg.MarshalledTx)) + (old(trFlagNonce[layer(sdk.UnwrapSDKContext(goCtx))]) ? 1 : 0)
 //@   ensures[C04.tx_conserves_supply] err == nil ==> (forall den string :: bankSupply[layer(sdk.UnwrapSDKContext(goCtx))][den] <= old(bankSupply[layer(sdk.UnwrapSDKContext(goCtx))][den]))
